@@ -5,7 +5,7 @@
 (* one record per host packet / bus event with what the real device did    *)
 (* until the next one:                                                     *)
 (*   a pid addr ep ok tr bytes crc   -- the host action (tr: truncated)    *)
-(*   n raw gap ovl                   -- device packets started in the      *)
+(*   n raw gap ovl mg xg             -- device packets started in the      *)
 (*        window, raw bytes of the first, cycles from the end of the host  *)
 (*        packet to the first tx_valid, tx_valid seen during a host packet *)
 (*   su sf                           -- setup.received strobes + fields    *)
@@ -17,8 +17,8 @@
 (***************************************************************************)
 EXTENDS Usb2Ctl, CRC, TLC, TLCExt, Json, IOUtils
 
-CONSTANTS MinGap,     \* inter-packet gap: earliest cycle (after the end of the host packet) the device may drive
-          MaxGap      \* bus turn-around time-out of the host
+(* The response window of the DUT's speed / clock (inter-packet gap .. bus turn-around time-out, in cycles after *)
+(* the end of the host packet) travels with every record as r.mg / r.xg: one batch may mix DUTs of different speeds. *)
 
 Logs == JsonDeserialize(IOEnv.TRACE_FILE)
 
@@ -60,8 +60,8 @@ Failing(r, a, p, hostCrcOk, j) ==
     ELSE IF r.n > 1 THEN "pkt_multi"
     ELSE IF p.k = "bad" THEN "pkt_malformed"
     ELSE IF r.ovl THEN "resp_overlap"
-    ELSE IF p.k # "none" /\ r.gap < MinGap THEN (IF Kind(a) = "setup_data" THEN "setup_ack_early" ELSE "resp_early")
-    ELSE IF p.k # "none" /\ r.gap > MaxGap THEN "resp_late"
+    ELSE IF p.k # "none" /\ r.gap < r.mg THEN (IF Kind(a) = "setup_data" THEN "setup_ack_early" ELSE "resp_early")
+    ELSE IF p.k # "none" /\ r.gap > r.xg THEN "resp_late"
     ELSE IF j # "ok" THEN j
     ELSE IF r.su # ExpectStrobes(a) THEN "setup_strobe"
     ELSE IF r.su = 1 /\ r.sf # FieldsOf(a.bytes) THEN "setup_fields"
